@@ -384,8 +384,44 @@ func c18FieldAgreement(c *Ctx, p *Prog) {
 	}
 }
 
+// c18IdentityKey: the public key written to the state file at generation must be the one every later
+// start re-derives from the private key (KeypairFromHex: plain base-point multiplication).  The
+// Elligator variant of NewKeypair adds a low-order point to the public key, so the identity key is
+// generated without it.
+func c18IdentityKey(c *Ctx, p *Prog) {
+	ob := c.Obl("R3", "transports/obfs4.obfs4ServerState.identityKey#derivation", "the bridge identity key comes from ntor.KeypairFromHex (reload) or ntor.NewKeypair(false) (generation): both derive the public key by plain base-point multiplication, so the public-key persisted and advertised in the legacy form is the one the server uses after every restart")
+	bad := ""
+	n := 0
+	for _, st := range p.Stores("transports/obfs4.obfs4ServerState", "identityKey") {
+		n++
+		call, _ := callOf(unspill(st.Val))
+		if call == nil {
+			bad = "identityKey is assigned something other than a constructor result at " + p.InstrPos(st.Instr)
+			continue
+		}
+		switch p.CalleeID(call.Common()) {
+		case M("$M/common/ntor.KeypairFromHex"):
+		case M("$M/common/ntor.NewKeypair"):
+			if k, ok := call.Common().Args[0].(*ssa.Const); !ok || k.Value == nil || k.Value.String() != "false" {
+				bad = "the identity key is generated with NewKeypair(" + p.valString(call.Common().Args[0]) + ") at " + p.InstrPos(call) + ": with Elligator the generated public key is not the one KeypairFromHex derives from the stored private key"
+			}
+		default:
+			bad = "identityKey is built by " + p.CalleeID(call.Common())
+		}
+	}
+	if n < 2 && bad == "" {
+		bad = fmt.Sprintf("%d assignments of the identity key (expected generation and reload)", n)
+	}
+	if bad != "" {
+		ob.Violate("%s", bad)
+	} else {
+		ob.HoldNT("%d assignment(s): KeypairFromHex / NewKeypair(false)", n)
+	}
+}
+
 func c18WriteBack(c *Ctx, p *Prog) {
 	c18FieldAgreement(c, p)
+	c18IdentityKey(c, p)
 	ob := c.Obl("R3", "transports/obfs4:serverStateFromJSONServerState#write-back", "every successful start writes the (possibly overridden) state back: the function that builds the server state succeeds only if writeJSONServerState succeeded, with the same JSON object the state was built from")
 	fn := p.Func("transports/obfs4:serverStateFromJSONServerState")
 	wr := p.Func("transports/obfs4:writeJSONServerState")
